@@ -570,6 +570,11 @@ theorem csv_text_column (toks : List Str) (hna : ∀ t ∈ toks, WriterCsv.isNA 
     WriterCsv.inferCol toks = some (.strs toks) :=
   WriterCsv.infer_text_column toks hna hx
 
+/-- the time columns are written from the UTC representation of the time field (the parser adds them back as UTC) -/
+theorem tms_time_columns_are_utc :
+    (dataFieldTypes.all fun w => !w.2.startsWith "time." || w.2.startsWith "time.utc.") = true := by
+  decide +kernel
+
 /-! ### the writers do not alter what they are given -/
 
 /-- **No writer assigns to, deletes from or calls a mutating method on an object reachable from its arguments or
@@ -720,6 +725,7 @@ end Midgard.Props.C17
 #print axioms Midgard.Props.C17.csv_float_column
 #print axioms Midgard.Props.C17.csv_nan_column_dropped
 #print axioms Midgard.Props.C17.csv_text_column
+#print axioms Midgard.Props.C17.tms_time_columns_are_utc
 #print axioms Midgard.Props.C17.writers_assign_nothing_on_inputs
 #print axioms Midgard.Props.C17.writer_effect_roots_cover
 #print axioms Midgard.Props.C17.blocks_balanced
